@@ -230,6 +230,21 @@ func runGrow(c *core.Ctx) {
 		groups := [][]interface{}{vals}
 		if split && len(vals) > 1 {
 			k := r.Range(1, len(vals)-1)
+			// the foreign key of a has-many lives in the child table but is declared by the owner: a call
+			// that migrates Review without having seen Book cannot know it (not generated, see Assumptions)
+			vals = append([]interface{}(nil), vals...)
+			bi, ri := -1, -1
+			for i, v := range vals {
+				switch v {
+				case book.v2:
+					bi = i
+				case review.v2:
+					ri = i
+				}
+			}
+			if ri >= 0 && ri < k && bi >= k {
+				vals[bi], vals[ri] = vals[ri], vals[bi]
+			}
 			groups = [][]interface{}{vals[:k], vals[k:]}
 		}
 		for _, g := range groups {
@@ -373,6 +388,22 @@ func runGrow(c *core.Ctx) {
 	if len(missing) > 0 {
 		x.violation("grow_v2_object_missing", map[string]interface{}{"missing": missing, "schema_changing_statements": ddl2, "schema_before": schemaBefore})
 		return
+	}
+
+	// ---- the rows inserted under v1 are returned through the new model
+	for i := 1; i <= nB; i++ {
+		out := reflect.New(reflect.TypeOf(book.v2).Elem())
+		if e := h.DB.Session(&gorm.Session{}).First(out.Interface(), i).Error; e != nil {
+			x.violation("grow_v2_old_row_unreadable", map[string]interface{}{"key": i, "error": e.Error()})
+			return
+		}
+		var got relv2.Book
+		copyFields(reflect.ValueOf(&got).Elem(), out.Elem())
+		if got.Title != fmt.Sprint("b'k ", i) || got.Pages != 100+i || got.AuthorID != nil || got.EditorID != nil || got.Isbn != nil {
+			x.violation("grow_v2_old_row_differs", map[string]interface{}{"key": i, "returned": describeBook(&got), "inserted": fmt.Sprintf("title=%q pages=%d", fmt.Sprint("b'k ", i), 100+i)})
+			return
+		}
+		c.Inc("old_rows_read_through_v2")
 	}
 
 	// ---- a record of the new model, with the new associations, is accepted and returned
